@@ -316,6 +316,19 @@ func (s *Sim) JudgeQueries(b, c int) {
 	for qi, q := range s.queryCases() {
 		want := q.want(docs)
 		got, err := s.runQuery(b, c, q.stmt, q.args, qi%2 == 1)
+		if s.Env.Cfg.Marker {
+			// the fence document the feed judge writes is not one of the history's documents (its body is raw, too)
+			if q.jsonOnly || strings.Contains(q.stmt, "LIMIT") {
+				continue
+			}
+			kept := got[:0]
+			for _, r := range got {
+				if r["id"] != canon(MarkerKey) && r[`the "id"`] != canon(MarkerKey) {
+					kept = append(kept, r)
+				}
+			}
+			got = kept
+		}
 		if q.jsonOnly && !allJSON {
 			// a body that is not JSON makes SQLite's JSON operators fail: the query may report that error (from Query,
 			// from the iteration or from Close), but it must not pass off the rows it got so far as the whole result
